@@ -317,6 +317,10 @@ func runC03Atoms(t *fw.T) {
 	nx := 0
 	e := fill(k, ac.slot, c03Atoms[ac.atom](), &nx)
 	checkAssembled(t, e, "literal-operand")
+	if ac.k == 0 && ac.slot == 0 {
+		// the primary expression on its own (as initialiser, right-hand side, statement, brace-less branch)
+		checkAssembled(t, c03Atoms[ac.atom](), "literal-operand/bare")
+	}
 	t.Feature("operator kind x literal operand", fmt.Sprintf("%s[%d] %d", k.name, ac.slot, ac.atom))
 	// one level down: the same node as operand of every unary / postfix / member kind and of one binary kind
 	for _, pk := range c03Kinds {
